@@ -220,7 +220,12 @@ def hier_program(ids: Ids, rng, shape: List[List[int]], kind: str, is_async: boo
                 m = make_member(ids, rng, kind, base, is_async, n_pre, n_post, n_snap, forms, errs)
                 if kind in ("pset", "pdel"):
                     members.append(make_member(ids, rng, "pget", base, False, 0, 0, 0))
-                members.append(m)
+                if kind in ("pset", "pdel") and choice == "plain" and i > 0 and rng.random() < 0.4:
+                    # the class re-defines the property read-only: the accessor under test does not exist on its property (a join
+                    # below it inherits the accessor's contracts from the other bases only)
+                    pass
+                else:
+                    members.append(m)
             invs = [make_inv(ids, rng, check_on=rng.choice(inv_check_ons), errs=errs) for _ in range(rng.randint(1, 2))] if rng.random() < inv_prob else []
             cls = chain_class(cname, [names[b] for b in bases], members, invs)
             if not bases and dbc_root:
